@@ -288,11 +288,39 @@ theorem corr_ok (n t5 : Nat) (hn : 2 ^ 255 < n ∧ n < 2 ^ 256) (ht : t5 < 2 ^ 3
       · omega
       · omega
 
+/-- the 40-byte buffer of `mod_n_from_hash` -/
+def hashBuf (ha : List UInt8) : List UInt8 :=
+  if 40 ≤ ha.length then ha.take 40 else List.replicate (40 - ha.length) 0 ++ ha
+
+theorem beNat_zeros (k : Nat) (bs : List UInt8) : beNat (List.replicate k 0 ++ bs) = beNat bs := by
+  rw [beNat_append]
+  have : beNat (List.replicate k (0 : UInt8)) = 0 := by
+    induction k with
+    | zero => rfl
+    | succ k ih =>
+      rw [List.replicate_succ, ← List.singleton_append, beNat_append, ih]
+      simp [beNat]
+  rw [this, Nat.zero_mul, Nat.zero_add]
+
+/-- the buffer denotes the integer encoded by the first 40 bytes (all bytes, when there are fewer) -/
+theorem hashBuf_val (ha : List UInt8) : beNat (hashBuf ha) = beNat (ha.take 40) := by
+  unfold hashBuf
+  split
+  · rfl
+  · rw [beNat_zeros, List.take_of_length_le (by omega)]
+
+theorem hashBuf_lt (ha : List UInt8) : beNat (hashBuf ha) < 2 ^ 320 := by
+  rw [hashBuf_val]
+  have := beNat_lt (ha.take 40)
+  have hl : (ha.take 40).length ≤ 40 := by rw [List.length_take]; omega
+  calc beNat (ha.take 40) < 256 ^ (ha.take 40).length := this
+    _ ≤ 256 ^ 40 := Nat.pow_le_pow_right (by decide) hl
+    _ = 2 ^ 320 := by decide
+
 theorem mod_n_from_hash_eq (ha : List UInt8) : SM9.mod_n_from_hash ha =
-    if ha.length < 40 then .panic else
       .ok (SM9.mod_n_add (SM9.from_hash_correct (SM9.from_hash_correct
-        ((beNat (ha.take 40) + 2 ^ 320 - qhat (beNat (ha.take 40)) * N_MINUS_ONE % 2 ^ 320) % 2 ^ 320)) % 2 ^ 256) 1) := by
-  unfold SM9.mod_n_from_hash qhat
+        ((beNat (hashBuf ha) + 2 ^ 320 - qhat (beNat (hashBuf ha)) * N_MINUS_ONE % 2 ^ 320) % 2 ^ 320)) % 2 ^ 256) 1) := by
+  unfold SM9.mod_n_from_hash qhat hashBuf
   rfl
 
 theorem cond_sub_mod3 (n q z : Nat) (k1 : q * n ≤ z) (k2 : z < q * n + 3 * n) :
@@ -313,13 +341,12 @@ theorem cond_sub_mod3 (n q z : Nat) (k1 : q * n ≤ z) (k2 : z < q * n + 3 * n) 
 
 theorem N_m1_big : 2 ^ 255 < N_MINUS_ONE ∧ N_MINUS_ONE < 2 ^ 256 := by decide
 
-theorem mod_n_from_hash_correct (ha : List UInt8) (h : 40 ≤ ha.length) :
+/-- for EVERY byte string (the fixed code no longer panics on fewer than 40 bytes) -/
+theorem mod_n_from_hash_correct' (ha : List UInt8) :
     SM9.mod_n_from_hash ha = .ok (beNat (ha.take 40) % (N - 1) + 1) := by
-  rw [mod_n_from_hash_eq, if_neg (by omega)]
-  have hz : beNat (ha.take 40) < 2 ^ 320 := by
-    have := beNat_lt (ha.take 40)
-    rwa [List.length_take, Nat.min_eq_left h] at this
-  generalize beNat (ha.take 40) = z at *
+  rw [mod_n_from_hash_eq, ← hashBuf_val]
+  have hz := hashBuf_lt ha
+  generalize beNat (hashBuf ha) = z at *
   obtain ⟨k1, k2⟩ := qhat_bounds z hz
   have ht : (z + 2 ^ 320 - qhat z * N_MINUS_ONE % 2 ^ 320) % 2 ^ 320 = z - qhat z * N_MINUS_ONE := by
     generalize qhat z * N_MINUS_ONE = s at *
@@ -333,6 +360,9 @@ theorem mod_n_from_hash_correct (ha : List UInt8) (h : 40 ≤ ha.length) :
   have hN := N_m1
   have hN2 := N_range
   rw [Nat.mod_eq_of_lt (by omega), mod_n_add_correct _ 1 (by omega) (by omega), Nat.mod_eq_of_lt (by omega)]
+
+theorem mod_n_from_hash_correct (ha : List UInt8) (_h : 40 ≤ ha.length) :
+    SM9.mod_n_from_hash ha = .ok (beNat (ha.take 40) % (N - 1) + 1) := mod_n_from_hash_correct' ha
 
 theorem barrett_estimate_lit (z : Nat) (hz : z < 2 ^ 320) :
     (z / 2 ^ 192 * (2 ^ 256 + N_MINUS_ONE_BARRETT_MU)) / 2 ^ 320 ≤ z / N_MINUS_ONE ∧
@@ -376,8 +406,10 @@ theorem mod_n_inv_correct (a : Nat) (ha : 0 < a ∧ a < N) :
 
 /-! ### H1 / H2 -/
 
-theorem mod_n_from_hash_short (ha : List UInt8) (h : ha.length < 40) : SM9.mod_n_from_hash ha = .panic := by
-  rw [mod_n_from_hash_eq, if_pos h]
+/-- fewer than 40 bytes (used to panic): read as the integer they encode -/
+theorem mod_n_from_hash_short (ha : List UInt8) (h : ha.length < 40) :
+    SM9.mod_n_from_hash ha = .ok (beNat ha % (N - 1) + 1) := by
+  rw [mod_n_from_hash_correct', List.take_of_length_le (by omega)]
 
 theorem sm3_eq (m : List UInt8) : SM9.sm3 m = Spec.SM3.hash m := by
   rw [SM9.sm3, Proofs.SM3.sm3_refines m]
